@@ -66,6 +66,8 @@ def gen_atoms(rnd: random.Random, n: int, cell=None, arrays: float = 0.5, uid: b
         arr["initial_charges"] = [rfloat(rnd, -1, 1, 3) for _ in range(n)]
     if rnd.random() < arrays * 0.6:
         arr["vec2"] = [[rfloat(rnd, -1, 1, 3) for _ in range(2)] for _ in range(n)]
+    if rnd.random() < arrays * 0.4:
+        arr["masses"] = [rfloat(rnd, 1.0, 120.0, 3) for _ in range(n)]
     cons = []
     if constraints and n:
         if "fixatoms" in constraints and n >= 1:
